@@ -820,6 +820,13 @@ func (m *Manager) sessionTimer(id string, expired bool) {
 		m.subscriberShutdown(id)
 
 		_ = m.persistence.Delete([]byte(id))
+		if obj, ok := m.sessions.Load(id); ok {
+			// a CONNECT that already holds this container must see that it is gone
+			cont := obj.(*container)
+			cont.rmLock.Lock()
+			cont.removed = true
+			cont.rmLock.Unlock()
+		}
 		m.sessions.Delete(id)
 		m.sessionsCount.Done()
 		m.expiryCount.Done()
